@@ -10,7 +10,7 @@ from vlib.runner import Stats, Violation, sut
 ID = "C01"
 RULE = (
     "case = backend in {memory, sqlite, peewee} x 1..10 id-less events (instant 1970..2100 boundary-biased, any UTC offset, duration 0..30 d at us "
-    "granularity, nested JSON data incl. unicode/quotes/floats/null) x insertion mode (single | bulk | mixed) x mutation script. Oracle (a) fidelity: listing "
+    "granularity, nested JSON data incl. unicode/quotes/floats/null) x insertion mode (single | bulk | mixed; a bulk list may contain the same Event object several times) x mutation script. Oracle (a) fidelity: listing "
     "returns exactly the inserted events, each with a distinct non-null id, instant == generated instant floored to ms (integer arithmetic), duration == to the "
     "us, data equal; get_by_id agrees; single insert returns the id later listed. (b) ownership: after mutating the caller's event objects (nested data in place, "
     "timestamp, duration, keys), every event handed out by get/get_by_id, and the dicts handed out by metadata()/buckets() (incl. nested data), all reads equal "
@@ -40,6 +40,7 @@ def strategy(draw, tier="quick"):
         "mode": draw(st.sampled_from(["single", "bulk", "mixed"])),
         "split": draw(st.integers(0, n)),
         "meta_data": draw(st.one_of(st.none(), gen.json_data(4).filter(lambda d: len(d) > 0))),
+        "repeat": draw(st.one_of(st.just([]), st.just([]), st.lists(st.integers(0, 99), min_size=1, max_size=3))),
     }
 
 
@@ -110,43 +111,52 @@ def run_case(case):
             if r is None or r.id is None:
                 raise Violation(f"{backend}: single insert did not return an event with an id")
             returned[i] = r.id
-        if objs[k:]:
+        bulk = list(objs[k:])
+        mult = {i: 1 for i in range(len(specs))}
+        if bulk:
+            # the same Event object may appear several times in one bulk list (the repository's own tests insert n * [event]):
+            # each occurrence is an insertion of its own
+            n0 = len(bulk)
+            for r in case.get("repeat", []):
+                j = k + r % n0
+                bulk.insert((r // 7) % (len(bulk) + 1), objs[j])
+                mult[j] += 1
             with sut(f"{backend}: insert([events])"):
-                b.insert(list(objs[k:]))
+                b.insert(bulk)
+        total = sum(mult.values())
 
         def snapshot():
             lst = _read_all(b, backend)
             out = {}
             for ev in lst:
-                m = ev.data.get("_m")
-                if m in out:
-                    raise Violation(f"{backend}: marker {m} listed twice")
-                out[m] = (ev.id, gen.to_us(ev.timestamp), gen.td_us(ev.duration), json.dumps(ev.data, sort_keys=True))
+                out.setdefault(ev.data.get("_m"), []).append((ev.id, gen.to_us(ev.timestamp), gen.td_us(ev.duration), json.dumps(ev.data, sort_keys=True)))
+            for v in out.values():
+                v.sort(key=lambda t: (t[0] is None, t[0]))
             return lst, out
 
         lst, snap = snapshot()
-        if len(lst) != len(specs):
-            raise Violation(f"{backend}: inserted {len(specs)} events ({mode}), listing returns {len(lst)}")
-        ids = [t[0] for t in snap.values()]
+        if len(lst) != total:
+            raise Violation(f"{backend}: inserted {total} events ({mode}), listing returns {len(lst)}")
+        ids = [t[0] for v in snap.values() for t in v]
         if any(i is None for i in ids) or len(set(ids)) != len(ids):
-            raise Violation(f"{backend}: ids not unique / missing: {ids}")
+            raise Violation(f"{backend}: ids not unique / missing: {sorted(ids, key=str)}")
         for i, s in enumerate(specs):
-            if i not in snap:
-                raise Violation(f"{backend}: event #{i} not listed")
-            eid, ts, dur, dj = snap[i]
+            if len(snap.get(i, [])) != mult[i]:
+                raise Violation(f"{backend}: event #{i} was inserted {mult[i]} time(s) but is listed {len(snap.get(i, []))} time(s)")
             exp_data = dict(json.loads(json.dumps(s["data"])), _m=i)
-            if ts != gen.floor_ms(s["us"]):
-                raise Violation(f"{backend}: instant {s['us']} us (offset {s['off']} min) read back as {ts} us, expected {gen.floor_ms(s['us'])}")
-            if dur != s["dur_us"]:
-                raise Violation(f"{backend}: duration {s['dur_us']} us read back as {dur} us (instant {s['us']})")
-            if json.loads(dj) != exp_data:
-                raise Violation(f"{backend}: data {exp_data!r} read back as {json.loads(dj)!r}")
-            with sut(f"{backend}: get_by_id"):
-                one = b.get_by_id(eid)
-            if one is None or (one.id, gen.to_us(one.timestamp), gen.td_us(one.duration), json.dumps(one.data, sort_keys=True)) != snap[i]:
-                raise Violation(f"{backend}: get_by_id({eid}) = {one!r} disagrees with listing {snap[i]}")
-            if i in returned and returned[i] != eid:
-                raise Violation(f"{backend}: single insert returned id {returned[i]} but the event is listed with id {eid}")
+            for eid, ts, dur, dj in snap[i]:
+                if ts != gen.floor_ms(s["us"]):
+                    raise Violation(f"{backend}: instant {s['us']} us (offset {s['off']} min) read back as {ts} us, expected {gen.floor_ms(s['us'])}")
+                if dur != s["dur_us"]:
+                    raise Violation(f"{backend}: duration {s['dur_us']} us read back as {dur} us (instant {s['us']})")
+                if json.loads(dj) != exp_data:
+                    raise Violation(f"{backend}: data {exp_data!r} read back as {json.loads(dj)!r}")
+                with sut(f"{backend}: get_by_id"):
+                    one = b.get_by_id(eid)
+                if one is None or (one.id, gen.to_us(one.timestamp), gen.td_us(one.duration), json.dumps(one.data, sort_keys=True)) != (eid, ts, dur, dj):
+                    raise Violation(f"{backend}: get_by_id({eid}) = {one!r} disagrees with listing {(eid, ts, dur, dj)}")
+            if i in returned and returned[i] != snap[i][0][0]:
+                raise Violation(f"{backend}: single insert returned id {returned[i]} but the event is listed with id {snap[i][0][0]}")
         with sut(f"{backend}: metadata"):
             meta_before = stores.norm_meta(b.metadata())
             buckets_before = {k2: stores.norm_meta(v) for k2, v in ds.buckets().items()}
